@@ -48,7 +48,10 @@ EXPR_POOL = [
     "|v| S { a: v }", "return_closure()", "|v| v >> 1", "|v| v > 1", "|v| 1 < v", "|v| v >= 1 && v <= 9",
     "|s| s.map", "then", "x.and_then", "|and_then| and_then", "opt.map", "|v| v..=9", "x?", "a()?", "foo.bar(1)?", "|v| v?", "x?.y?", "|v| -v", "|v| !v", "a => b", "|v| v as Vec<u8>", "a -> b", "a |> b", "0..3", "..", "a, b",
 ]
-MEMBER_POOL = ["len()", "0", "unwrap_or(3)", "iter().map(|v| v + 1)", "foo::<Vec<Vec<u8>>>(a, b)", "x", "into_iter()", "and_then(|v| Some(v))", "1.0", "clone().len()", "unwrap_or_else(|| 7)", "max(1, 2)", "await"]
+MEMBER_POOL = ["len()", "0", "unwrap_or(3)", "iter().map(|v| v + 1)", "foo::<Vec<Vec<u8>>>(a, b)", "x", "into_iter()", "and_then(|v| Some(v))", "1.0", "clone().len()", "unwrap_or_else(|| 7)", "max(1, 2)", "await",
+               # a member access whose operand goes on with something that binds weaker than a method call (fixed finding
+               # 66989f9: `s ..x as u64 ..pow(2)` used to expand to `s.x as u64.pow(2)`)
+               "x as u64", "len() + 1", "0 as u8 as u32", "y.z * 2", "count() as u32 - 1"]
 TYPE_POOL = ["Vec<_>", "Vec<Vec<Vec<u8>>>", "std::collections::HashMap<u8, Vec<u8>>", "(u8, u8)", "[u8; 3]", "Box<dyn Fn(u8) -> u8>", "_", "String", "&'static str", "<T as Tr>::Out", "fn(u8) -> u8", "Option<fn() -> u8>", "impl Iterator<Item = u8>"]
 HANDLER_POOL = ["|a, b| a + b", "f", "|a| async move { a }", "{ let k = 1; move |a| a + k }", "h::<u8>", "|a, b, c| (a, b, c)"]
 INITIAL_POOL = [e for e in EXPR_POOL if not e.startswith("|") and not e.startswith("move")]
@@ -528,6 +531,10 @@ def total_cases(rng, pools, tier):
         # non-identifier `let` pattern
         pat = rng.choice(["(a, b)", "S { a }", "Some(x)", "[a, b]", "_"])
         add("I:let_pattern", "let %s = %s |> f" % (pat, b0.initial), cfgs)
+        # a `~` that defers nothing: in front of a `,`, of a handler, at the end (fixed finding 675249b: used to be dropped)
+        tail_b = g.branch(2).render(lambda: " ")
+        add("I:stray_tilde", rng.choice(["%s ~, %s" % (b0.render(lambda: " "), tail_b), "%s ~" % b0.render(lambda: " "), "%s ~ map => |a| a" % b0.render(lambda: " "),
+                                          "%s, %s ~ then => h" % (tail_b, b0.render(lambda: " ")), "%s ~ ~ |> f" % b0.initial]), cfgs)
         # a `..` / `>.` operand that cannot stand after a dot (fixed finding 1cc49f7: used to panic inside a wrapper)
         bad = rng.choice(["{ 1 }", "|v| v", '"s"', "(a)", "[1]", "match x { _ => 1 }", "-1", "&x", "'l: { 2 }", "move || 1", "!b", "*p", "if c { a } else { b }"])
         dot = rng.choice(["..", ">."])
